@@ -77,6 +77,8 @@ pub struct Unit {
     pub enum_eq: Vec<String>,
     pub stub_eq: Vec<String>,
     pub type_map: Vec<(String, String)>,
+    pub path_map: Vec<(String, String)>,
+    pub uses: Vec<String>,
     pub method_map: Vec<(String, String)>,
     pub items: Vec<Item>,
     pub trusted_allow: Vec<String>,
@@ -169,6 +171,10 @@ pub fn parse(text: &str) -> Result<Unit, String> {
             "type-map" => {
                 // `From => To`
                 for l in full.lines() { if let Some((x, y)) = l.split_once("=>") { unit.type_map.push((x.trim().replace(' ', ""), y.trim().to_string())); } }
+            }
+            "use" => unit.uses.push(format!("use {};", full_trim.trim_end_matches(';'))),
+            "path-map" => {
+                for l in full.lines() { if let Some((x, y)) = l.split_once("=>") { unit.path_map.push((x.trim().to_string(), y.trim().to_string())); } }
             }
             "method-map" => {
                 for l in full.lines() { if let Some((x, y)) = l.split_once("=>") { unit.method_map.push((x.trim().to_string(), y.trim().to_string())); } }
